@@ -13,6 +13,10 @@ open GmQuic.SentFrames
 open GmQuic.SentJournal (Rec)
 open GmQuic.RcvdJournal (AckFrame pnsDesc)
 
+/-- non-vacuity of the `plain` hypothesis used throughout: every kind of covered operation -/
+example : ∀ op ∈ [Op.pkt [1] false 1 1, .pkt [] true 1 1, .pkt [] false 1 1, .ack ⟨0, 0, 0, []⟩, .acked [0, 7], .lost [0], .rotate, .tick 5],
+    op.plain = true := by decide
+
 /-- `pkt` records exactly the frames it was given under the number it reports. -/
 theorem frames_recorded (ops : List Op) (hp : ∀ op ∈ ops, op.plain = true) (frames : List Nat) (trivial : Bool) (rt et n : Nat)
     (h : (step (runFrom init ops) (.pkt frames trivial rt et)).2 = .pn (some n)) :
